@@ -213,6 +213,7 @@ func batchMain(t *testing.T, spec *Spec, prop, tier string) {
 	nviol := 0
 	findingSeen := map[string]bool{}
 	for i := worker; i < total; i += nworkers {
+		MinimiseBy = start.Add(budget + 30*time.Second)
 		if time.Since(start) > budget {
 			sum.BudgetHit = true
 			break
@@ -220,7 +221,12 @@ func batchMain(t *testing.T, spec *Spec, prop, tier string) {
 		seed := SplitMix(base, uint64(i))
 		d := NewGenD(prop, tier, seed)
 		d.Cfg = spec.GenConfig(d.Rng, tier)
-		if infra := runOne(t, spec, d); infra != "" {
+		t0run := time.Now()
+		infra := runOne(t, spec, d)
+		if os.Getenv("VERIF_SLOWLOG") != "" && time.Since(t0run) > 5*time.Second {
+			fmt.Fprintf(os.Stderr, "SLOW run seed=%d took %v steps=%d\n", seed, time.Since(t0run), len(d.Steps))
+		}
+		if infra != "" {
 			sum.InfraError = fmt.Sprintf("%s (seed %d)", infra, seed)
 			flush()
 			fmt.Printf("INFRA %s\n", sum.InfraError)
@@ -327,10 +333,17 @@ func sanitize(s string) string {
 	return string(b)
 }
 
+// MinimiseBy: minimisation stops at this instant (set by the batch loop: end of the worker's budget plus a
+// grace period), so that a simulator whose failing runs are expensive cannot run into the orchestrator's watchdog.
+var MinimiseBy time.Time
+
 func Minimise(t *testing.T, spec *Spec, d *D, target *Violation) ([]Step, *Violation, string, []string) {
 	best := append([]Step(nil), d.Steps...)
 	// canonical re-execution of the full program in replay mode (also proves replayability)
 	deadline := time.Now().Add(90 * time.Second)
+	if !MinimiseBy.IsZero() && MinimiseBy.Before(deadline) { // the worker's own budget is nearly used up
+		deadline = MinimiseBy
+	}
 	execs := 0
 	var lastTail []string
 	try := func(steps []Step) (*Violation, string) {
@@ -343,7 +356,16 @@ func Minimise(t *testing.T, spec *Spec, d *D, target *Violation) ([]Step, *Viola
 		return d2.has(target.Invariant, target.Signature), d2.LogHash()
 	}
 	same := func(v *Violation) bool { return v != nil }
+	if !time.Now().Before(deadline) {
+		// no time left at all: the program as generated is reported; the orchestrator's replay in a fresh
+		// process is what confirms it
+		return best, target, d.LogHash(), d.Tail()
+	}
+	t0try := time.Now()
 	v0, h0 := try(best)
+	if cost := time.Since(t0try); time.Now().Add(cost).After(deadline) {
+		deadline = time.Now() // one more execution would overrun: keep what we have
+	}
 	if !same(v0) {
 		// replay of the recorded program does not reproduce: report un-minimised; orchestrator flags it
 		return best, target, d.LogHash(), d.Tail()
@@ -354,7 +376,7 @@ func Minimise(t *testing.T, spec *Spec, d *D, target *Violation) ([]Step, *Viola
 	// continues after a (containable) finding, so the shorter program has another event log and the
 	// recorded hash must be that of the program that is written to the replay file
 	truncate := func() {
-		if bestV.AtStep < len(best) {
+		if bestV.AtStep < len(best) && time.Now().Before(deadline) {
 			cand := append([]Step(nil), best[:bestV.AtStep]...)
 			if v, h := try(cand); same(v) {
 				best, bestV, bestH, bestTail = cand, v, h, lastTail
